@@ -134,7 +134,9 @@ def one_case(w: Any, spec: tuple[str, int, bool], addr: str, steps: list[tuple[A
         if entry is not None:
             xknx.group_address_dpt.set({addr: table_entry(entry, len(repr(payload)))})
             if isinstance(entry, type) and xknx.group_address_dpt.get(mk_addr(addr)) is not entry:
-                raise RuntimeError(f"harness: table entry {entry} not installed")
+                # (clear() followed by set(): the table must answer with what was configured last)
+                viols.append(("configured-type-not-in-effect", f"after clear() + set({{{addr}: {entry.__name__}}}) the table answers {xknx.group_address_dpt.get(mk_addr(addr))} for {addr}"))
+                continue
         outcome = []
         for dev, use_table in ((a, True), (b, False)):
             tg = Telegram(mk_addr(addr), payload=(GroupValueResponse if response else GroupValueWrite)(payload), source_address=IndividualAddress("1.1.9"), direction=TelegramDirection.INCOMING)
@@ -359,7 +361,7 @@ def run(ctx: Ctx) -> None:
     ctx.bounds["device_addresses"] = len(units)
     ctx.pmap(worker, [(i, a, ctx.seed, ctx.thorough) for i, a in units])
     ctx.pmap(queue_worker, [(i, a, ctx.seed) for i, a in units if ctx.thorough or (i + a) % 5 == 0])
-    if not ctx.total.extra.get("eager_decoded_cases"):
+    if not ctx.total.extra.get("eager_decoded_cases") and not ctx.total.viols:
         raise RuntimeError("vacuous: no telegram was eager-decoded")
     ctx.pmap(typed_worker, [(d, k, 32, ctx.seed) for d in ("Sensor", "NumericValue", "ExposeSensor") for k in range(32)])
 
